@@ -1,11 +1,12 @@
 import DaskModel.DriverLib
 import DaskModel.Model.SetItemMask
+import DaskModel.Lemmas.SetItemNDValue   -- Mathlib-free (checked): holds the executable `vixEval`, `axisBlockPairsV`, `axisSelectedV` next to their lemmas
 /-
 Line-protocol handlers of the C21 extension round (the `where` path of `Array.__setitem__`); appended to the table of
 `Drivers/slicing.lean`.
 -/
 namespace Dask.C21xIO
-open Dask Dask.SetItemMask
+open Dask Dask.SetItemMask Dask.Slice1D Dask.SetItem Dask.SetItemND
 
 def toBoolSym? (e : SExp) : Option Bool := e.toBool?
 
@@ -53,7 +54,55 @@ def hNpMask : Handler := handler fun args =>
     | none => pure (.sym "none")
   | _ => none
 
+def toSlice? (e : SExp) : Option PSlice :=
+  match e with
+  | .list [a, b, c] => do pure ⟨← a.toOptInt?, ← b.toOptInt?, ← c.toOptInt?⟩
+  | _ => none
+
+def toVIx? (e : SExp) : Option VIx :=
+  match e with
+  | .list [.sym "sl", s] => do pure (VIx.sl (← toSlice? s))
+  | .list [.sym "arr", l] => do pure (VIx.arr (← l.toNats?))
+  | .list [.sym "ellipsis"] => some VIx.ellipsis
+  | _ => none
+
+def toAIdx? (e : SExp) : Option AIdx :=
+  match e with
+  | .list [.sym "sl", a, b, c] => do pure (AIdx.sl (← a.toInt?) (← b.toInt?) (← c.toInt?))
+  | .list [.sym "int", i] => do pure (AIdx.int (← i.toInt?))
+  | .list [.sym "arr", l] => do pure (AIdx.arr (← l.toInts?))
+  | _ => none
+
+def toVAx? (e : SExp) : Option VAx :=
+  match e with
+  | .sym "none" => some none
+  | .list [n, r] => do pure (some (← n.toNat?, ← r.toBool?))
+  | _ => none
+
+def ofPairs (l : List (Int × Option Int)) : SExp :=
+  .list (l.map fun p => .list [.int p.1, match p.2 with | some v => .int v | none => .sym "none"])
+
+/-- `(vixeval size vix)` ↦ `(positions…)` | `none`: the positions of a value axis a value index reads -/
+def hVixEval : Handler := handler fun args =>
+  match args with
+  | [n, v] => do
+    match vixEval (← n.toNat?) (← toVIx? v) with
+    | some r => pure (SExp.ofInts r)
+    | none => pure (.sym "none")
+  | _ => none
+
+/-- `(axispairs (lengths…) idx vax)` ↦ `((pairs of block 0) (pairs of block 1) … ) (NumPy's pairs)`: what every block of
+    one axis assigns (`axisBlockPairsV`, from the value indices the code builds) and NumPy's pairs (`axisSelectedV`) -/
+def hAxisPairs : Handler := handler fun args =>
+  match args with
+  | [c, idx, va] => do
+    let c ← c.toNats?
+    let idx ← toAIdx? idx
+    let va ← toVAx? va
+    pure (.list [.list ((locations c).map fun loc => ofPairs (axisBlockPairsV idx va loc)), ofPairs (axisSelectedV idx va)])
+  | _ => none
+
 def handlers : List (String × Handler) :=
-  [("maskdispatch", hDispatch), ("whereplan", hWherePlan), ("whereblock", hWhereBlock), ("npmask", hNpMask)]
+  [("vixeval", hVixEval), ("axispairs", hAxisPairs), ("maskdispatch", hDispatch), ("whereplan", hWherePlan), ("whereblock", hWhereBlock), ("npmask", hNpMask)]
 
 end Dask.C21xIO
